@@ -321,6 +321,16 @@ def check_vars(only=None):
                     raise Violation(f'copy-parameter|ParMapDataset.{k}',
                                     f'ParMapDataset(backend=False).copy(freeze={freeze}): {k} == {vars(cs).get(k)!r}, '
                                     f'original {vars(serial).get(k)!r}')
+        # ... the legal value 0 of an optional limit
+        zero = inst['DictDataset'].batch_dynamic_time_series_bucket(
+            batch_size=3, len_key=lambda x: x, max_padding_rate=0.3, expiration=0, max_buffered_examples=0)
+        for freeze in (False, True):
+            cz = zero.copy(freeze=freeze)
+            for k in ('expiration', 'max_buffered_examples', 'drop_incomplete', 'reverse_sort'):
+                if vars(cz).get(k) != vars(zero).get(k) or type(vars(cz).get(k)) is not type(vars(zero).get(k)):
+                    raise Violation(f'copy-parameter|DynamicBucketDataset.{k}',
+                                    f'DynamicBucketDataset(expiration=0, max_buffered_examples=0).copy(freeze={freeze}): '
+                                    f'{k} == {vars(cz).get(k)!r}, original {vars(zero).get(k)!r}')
         inst.clear()
     return checked
 
